@@ -253,6 +253,8 @@ class FastEngine(Engine):
                 stmts, term = code[bb]
                 for st in stmts: st(fr)
                 self.nsteps += len(stmts) + 1
+                if self.max_steps is not None and self.nsteps - self.steps0 > self.max_steps:
+                    raise Panic("step budget exceeded (%d interpreted statements on one path) in %s" % (self.max_steps, f.name))
                 bb = term(fr)
                 if bb is None: return fr.locals.get(0, UNIT)
         except Exception as e:
